@@ -52,6 +52,9 @@ pub trait Maker {
     fn make(&self, id: u32) -> Self::Ret;
     fn make_group(&self, id: u32) -> Self::RetG;
     fn make_consuming(self, id: u32) -> Self::Ret;
+    fn try_make(&self, id: u32, fail: bool) -> Result<Self::Ret, u64>;
+    #[int_result]
+    fn code_make(&self, id: u32, fail: bool) -> Result<Self::Ret, ()>;
 }
 impl Maker for P {
     type Ret = P;
@@ -59,6 +62,8 @@ impl Maker for P {
     fn make(&self, id: u32) -> P { P::new(id) }
     fn make_group(&self, id: u32) -> P { P::new(id) }
     fn make_consuming(self, id: u32) -> P { P::new(id ^ self.id) }
+    fn try_make(&self, id: u32, fail: bool) -> Result<P, u64> { if fail { Err(id as u64 ^ 0xE0) } else { Ok(P::new(id)) } }
+    fn code_make(&self, id: u32, fail: bool) -> Result<P, ()> { if fail { Err(()) } else { Ok(P::new(id)) } }
 }
 
 #[cfg(kani)]
